@@ -157,7 +157,7 @@ def gen_value(rng, kn, classes, depth=None):
     return ["dd", [[gen_hashable(rng, kn, classes, 0), gen_value(rng, kn, classes, depth - 1)] for _ in range(rng.choice([0, 1, 2]))]]
 
 
-BURST_FAMILIES = ["tuples", "atoms", "dicts", "lists", "mixed"]
+BURST_FAMILIES = ["tuples", "atoms", "dicts", "lists", "mixed", "dictlists"]
 
 
 def gen_burst_value(rng, family, classes, kn):
@@ -175,6 +175,15 @@ def gen_burst_value(rng, family, classes, kn):
         n = rng.choice([1, 1, 2])
         keys = rng.sample(range(ks), min(n, ks))
         return ["d", [[["s", "k%d" % k], gen_atom(rng, kn, classes)] for k in keys]]
+    if family == "dictlists":
+        # lists of small string-key dicts over a tiny key space with few value types: across the calls of a burst the same key is
+        # required in one inferred TypedDict, optional in another, with different value types (merges of merges)
+        mk = lambda: [["i", 1], ["s", "x"], ["n"], ["f", 0.5]][rng.randrange(4)]  # noqa: E731
+        out = []
+        for _ in range(rng.choice([1, 2, 2, 3])):
+            keys = rng.sample(range(3), rng.choice([1, 2, 2, 3]))
+            out.append(["d", [[["s", "k%d" % k], mk()] for k in sorted(keys)]])
+        return ["l", out]
     if family == "lists":
         return ["l", [gen_burst_value(rng, rng.choice(["atoms", "dicts", "tuples"]), classes, kn) for _ in range(rng.randrange(0, 3))]]
     return gen_value(rng, kn, classes)
